@@ -1,10 +1,20 @@
 #!/bin/bash
-# Offline setup: pre-builds the harness crate's dependencies with the Kani toolchain.
+# Offline setup: pre-builds what the checks need (Kani build of the harness crate's dependencies, the native
+# helper, the nightly MIR dump's dependencies). Every check rebuilds from /repo's working tree anyway; this only warms caches.
 set -u
 cd "$(dirname "$0")"
 export CARGO_NET_OFFLINE=true
 mkdir -p .target evidence kani/src/gen
 cp /repo/Cargo.lock kani/Cargo.lock 2>/dev/null || true
+cp /repo/Cargo.lock native/Cargo.lock 2>/dev/null || true
 [ -f kani/src/gen/playback.rs ] || echo "// placeholder" > kani/src/gen/playback.rs
+(cd native && cargo build --offline --target-dir ../.target/n >/dev/null 2>../.target/setup_native.log) || { tail -20 .target/setup_native.log; echo "setup: native build failed"; exit 1; }
 (cd kani && cargo kani --target-dir ../.target/k --only-codegen --harness c17::c17a_or_unrepresentable --exact >/dev/null 2>../.target/setup.log) || { tail -30 .target/setup.log; echo "setup: kani build failed"; exit 1; }
+python3 -c "
+import sys; sys.path.insert(0, '.')
+from vlib import engine_f
+m, msg = engine_f.dump_mir()
+print('mir:', msg)
+sys.exit(0 if m else 1)
+" || { echo "setup: MIR dump failed"; exit 1; }
 echo "setup ok"
